@@ -664,6 +664,198 @@ fn main() {
 		}
 		out.raw(&format!("#STAT c01 fee-field words read from bytes={}", n_words));
 	}
+
+	// ---- inputs that only the commitment-level scans / the sum itself can refuse
+	{
+		use grin_core::core::transaction::{Input, Inputs};
+		use grin_core::core::CommitWrapper;
+		use grin_core::ser::{self, DeserializationMode, ProtocolVersion};
+		use grin_util::secp::pedersen::Commitment;
+		let pb = ProofBuilder::new(&kc);
+		let read_verdict_tx = |t: &Transaction| -> String {
+			match catch(std::panic::AssertUnwindSafe(|| t.validate_read())) {
+				Ok(Ok(_)) => "ok".into(),
+				Ok(Err(e)) => format!("err:{}", format!("{:?}", e).chars().take_while(|c| c.is_alphanumeric()).collect::<String>()),
+				Err(_) => "panic".into(),
+			}
+		};
+		let read_verdict_block = |b: &Block| -> String {
+			match catch(std::panic::AssertUnwindSafe(|| b.validate_read())) {
+				Ok(Ok(_)) => "ok".into(),
+				Ok(Err(e)) => format!("err:{}", format!("{:?}", e).chars().take_while(|c| c.is_alphanumeric()).collect::<String>()),
+				Err(_) => "panic".into(),
+			}
+		};
+		// the object written at protocol version `v` and read back (the reader runs validate_read)
+		let wire_tx = |t: &Transaction, v: u32| -> String {
+			match ser::ser_vec(t, ProtocolVersion(v)) {
+				Ok(bytes) => match catch(std::panic::AssertUnwindSafe(|| ser::deserialize::<Transaction, _>(&mut &bytes[..], ProtocolVersion(v), DeserializationMode::default()))) {
+					Ok(Ok(_)) => "ok".into(),
+					Ok(Err(_)) => "err:read".into(),
+					Err(_) => "panic".into(),
+				},
+				Err(_) => "err:write".into(),
+			}
+		};
+		let wire_block = |b: &Block, v: u32| -> String {
+			match ser::ser_vec(b, ProtocolVersion(v)) {
+				// the reader the network side uses (`UntrustedBlock`: header checks, then validate_read)
+				Ok(bytes) => match catch(std::panic::AssertUnwindSafe(|| ser::deserialize::<grin_core::core::UntrustedBlock, _>(&mut &bytes[..], ProtocolVersion(v), DeserializationMode::default()))) {
+					Ok(Ok(_)) => "ok".into(),
+					Ok(Err(_)) => "err:read".into(),
+					Err(_) => "panic".into(),
+				},
+				Err(_) => "err:write".into(),
+			}
+		};
+		// (1) ONE output spent twice inside one body: two inputs with the same commitment whose
+		// feature bytes differ (Plain / Coinbase), in features-and-commit form - as hashed objects
+		// they are distinct and sortable; everything else is made to fit (the kernel excess accounts
+		// for the commitment twice, the output carries twice the value), so the ONLY thing wrong is
+		// the repeated commitment: the scan over commitments must refuse it at read time
+		for (n, value, fee) in [(0u32, 500_000u64, 3u32), (1, 77_777, 9), (2, 1_000_003, 1)] {
+			let kin = key(7, n);
+			let built = build::transaction(
+				KernelFeatures::Plain { fee: fee.into() },
+				&[build::input(value, kin.clone()), build::input(value, kin.clone()), build::output(2 * value - fee as u64, key(8, n))],
+				&kc,
+				&pb,
+			);
+			let base = match built {
+				Ok(t) => t,
+				Err(e) => {
+					out.raw(&format!("#STAT c01 same-commitment-twice: builder refused the base body: {:?}", e));
+					continue;
+				}
+			};
+			let commit = {
+				let v: Vec<CommitWrapper> = base.inputs().into();
+				v[0].commitment()
+			};
+			let mut pair = vec![Input { features: OutputFeatures::Plain, commit }, Input { features: OutputFeatures::Coinbase, commit }];
+			pair.sort_unstable();
+			for form in ["features-and-commit(plain,coinbase)", "features-and-commit(plain,plain)", "commit-only"] {
+				let mut t = base.clone();
+				t.body.inputs = match form {
+					"features-and-commit(plain,coinbase)" => Inputs::FeaturesAndCommit(pair.clone()),
+					"features-and-commit(plain,plain)" => Inputs::FeaturesAndCommit(vec![Input { features: OutputFeatures::Plain, commit }, Input { features: OutputFeatures::Plain, commit }]),
+					_ => Inputs::CommitOnly(vec![CommitWrapper::from(commit), CommitWrapper::from(commit)]),
+				};
+				cases += 3;
+				expect_reject(&mut out, &format!("c01 tx same-commitment-twice {} case={} validate_read", form, n), &read_verdict_tx(&t), &mut bad);
+				expect_reject(&mut out, &format!("c01 tx same-commitment-twice {} case={} validate", form, n), &verdict_tx(&t), &mut bad);
+				let v = if form == "commit-only" { 3 } else { 2 };
+				expect_reject(&mut out, &format!("c01 tx same-commitment-twice {} case={} wire-v{}", form, n, v), &wire_tx(&t, v), &mut bad);
+				// the same body as a block
+				let prev = grin_core::core::BlockHeader::default();
+				let rw = reward::output(&kc, &pb, &key(9, n), fee as u64, false).unwrap();
+				// the block is assembled around the transaction with its inputs still de-duplicated,
+				// then given the repeated input
+				if let Ok(mut b) = Block::new(&prev, &[base.clone()], Difficulty::min_dma(), rw) {
+					let honest_wire = wire_block(&b, v);
+					b.body.inputs = t.body.inputs.clone();
+					cases += 3;
+					expect_reject(&mut out, &format!("c01 block same-commitment-twice {} case={} validate_read", form, n), &read_verdict_block(&b), &mut bad);
+					expect_reject(&mut out, &format!("c01 block same-commitment-twice {} case={} validate", form, n), &verdict_block(&b, &prev.total_kernel_offset()), &mut bad);
+					if honest_wire == "ok" {
+						expect_reject(&mut out, &format!("c01 block same-commitment-twice {} case={} wire-v{}", form, n, v), &wire_block(&b, v), &mut bad);
+					} else {
+						out.raw(&format!("#STAT c01 same-commitment-twice: the block before the change does not pass the untrusted reader at v{} ({}): wire case skipped", v, honest_wire));
+					}
+				} else {
+					out.raw("#STAT c01 same-commitment-twice: Block::new refused the base transaction");
+				}
+			}
+		}
+		// (2) an extra input whose 33 bytes are NOT a point of the curve, added to a body that balances
+		// without it (kernel excesses + offset cancel exactly): if the error of the commitment sum
+		// were swallowed (the bad term read as zero) the body would verify
+		let secp = kc.secp();
+		let mut bogus: Vec<(String, Commitment)> = vec![];
+		bogus.push(("all-zero".into(), Commitment::from_vec(vec![0u8; 33])));
+		bogus.push(("x=ff..ff".into(), Commitment::from_vec({
+			let mut v = vec![0xffu8; 33];
+			v[0] = 0x08;
+			v
+		})));
+		bogus.push(("tag-byte-0x02".into(), Commitment::from_vec({
+			let mut v = txs[0].outputs()[0].commitment().0.to_vec();
+			v[0] = 0x02;
+			v
+		})));
+		// x coordinates that are not on the curve (found by search: the library refuses them)
+		let mut x = 5u8;
+		while bogus.len() < 6 && x < 200 {
+			let mut v = vec![0u8; 33];
+			v[0] = 0x08;
+			v[32] = x;
+			let c = Commitment::from_vec(v);
+			if secp.commit_sum(vec![c], vec![]).is_err() {
+				bogus.push((format!("x={}-not-on-curve", x), c));
+			}
+			x += 1;
+		}
+		for (what, c) in &bogus {
+			let is_point = secp.commit_sum(vec![*c], vec![]).is_ok();
+			out.raw(&format!("#STAT c01 non-point input {}: library accepts the bytes as a point={}", what, is_point));
+			if is_point {
+				continue;
+			}
+			if what == "all-zero" {
+				// 33 zero bytes are how the library writes the commitment to zero; `sum_commits`
+				// (core/src/core/committed.rs) filters exactly this value out of both sides of every
+				// sum BY DESIGN, so a body with such an extra "input" balances statelessly (it is
+				// refused against the chain state: no such output). Recorded as an observation, no oracle.
+				let mut t = txs[3].clone();
+				let mut v: Vec<CommitWrapper> = txs[3].inputs().into();
+				v.push(CommitWrapper::from(*c));
+				v.sort_unstable();
+				t.body.inputs = Inputs::CommitOnly(v);
+				out.raw(&format!("#STAT c01 extra all-zero input (the zero commitment, dropped from every sum by design): validate={}", verdict_tx(&t)));
+				continue;
+			}
+			for (n, form) in [(3usize, "commit-only"), (4, "features-and-commit")] {
+				let base = &txs[n];
+				let mut t = base.clone();
+				t.body.inputs = match form {
+					"commit-only" => {
+						let mut v: Vec<CommitWrapper> = base.inputs().into();
+						v.push(CommitWrapper::from(*c));
+						v.sort_unstable();
+						Inputs::CommitOnly(v)
+					}
+					_ => {
+						let v0: Vec<CommitWrapper> = base.inputs().into();
+						let mut v: Vec<Input> = v0.iter().map(|w| Input { features: OutputFeatures::Plain, commit: w.commitment() }).collect();
+						v.push(Input { features: OutputFeatures::Plain, commit: *c });
+						v.sort_unstable();
+						Inputs::FeaturesAndCommit(v)
+					}
+				};
+				cases += 1;
+				expect_reject(&mut out, &format!("c01 tx extra-input-not-a-curve-point {} {} validate", what, form), &verdict_tx(&t), &mut bad);
+				out.line(&format!("c01 tx extra-input-not-a-curve-point {} {} validate_read", what, form), &read_verdict_tx(&t));
+				// sum in isolation: the error must come out of the sum, not a zero
+				let sum = {
+					use grin_core::core::Committed;
+					match catch(std::panic::AssertUnwindSafe(|| t.sum_commitments(t.overage()))) {
+						Ok(Ok(_)) => "ok".to_string(),
+						Ok(Err(_)) => "err".to_string(),
+						Err(_) => "panic".to_string(),
+					}
+				};
+				cases += 1;
+				expect_reject(&mut out, &format!("c01 tx extra-input-not-a-curve-point {} {} sum_commitments", what, form), &sum, &mut bad);
+				let prev = grin_core::core::BlockHeader::default();
+				let rw = reward::output(&kc, &pb, &key(10, n as u32), base.fee(), false).unwrap();
+				if let Ok(mut b) = Block::new(&prev, &[base.clone()], Difficulty::min_dma(), rw) {
+					b.body.inputs = t.body.inputs.clone();
+					cases += 1;
+					expect_reject(&mut out, &format!("c01 block extra-input-not-a-curve-point {} {} validate", what, form), &verdict_block(&b, &prev.total_kernel_offset()), &mut bad);
+				}
+			}
+		}
+	}
 	out.raw(&format!("#STAT c01 weightings per transaction verdict={}", weightings().len()));
 	out.raw(&format!("#STAT c01 corruption cases={} accepted={}", cases, bad));
 	out.flush();
